@@ -48,12 +48,52 @@ func permuted(r *Rng, xs []string) []string {
 }
 
 func runC13(r *Rng, n int, tier string) {
+	// every corpus statement before and after a fixed set of plain readers of every table: compiling one query
+	// must not change what another query generates
+	corpusProject(NewRng(1)) // fills corpusOK
+	for _, eng := range []string{"postgresql", "mysql"} {
+		list, schema := l2CorpusPG, corpusPG
+		tables := []string{"authors", "books", "venues", "nodes"}
+		ph := "$1"
+		if eng == "mysql" {
+			list, schema = l2CorpusMy, corpusMy
+			tables = []string{"authors", "books", "venues"}
+			ph = "?"
+		}
+		var readers strings.Builder
+		for ti, t := range tables {
+			fmt.Fprintf(&readers, "-- name: ReadAll%d :many\nSELECT * FROM %s;\n\n-- name: ReadOne%d :one\nSELECT * FROM %s WHERE id = %s;\n\n-- name: ReadID%d :many\nSELECT id FROM %s;\n\n", ti, t, ti, t, ph, ti, t)
+		}
+		for _, idx := range corpusOK[eng] {
+			st := list[idx]
+			x := fmt.Sprintf("-- name: K%d %s\n%s;\n\n", idx, st.cmd, st.sql)
+			first := map[string]string{"schema.sql": schema, "query.sql": x + readers.String(), "sqlc.json": confV1(eng, "")}
+			last := map[string]string{"schema.sql": schema, "query.sql": readers.String() + x, "sqlc.json": confV1(eng, "")}
+			a, b := generate(first), generate(last)
+			oracle := ""
+			var detail J
+			if a.OK() != b.OK() || hashesString(a) != hashesString(b) {
+				oracle = fmt.Sprintf("compiling `%s` before the other queries of the package changes what they generate", st.sql)
+				if a.OK() && b.OK() {
+					oracle += ": " + diffFiles(b.Files, a.Files)
+				}
+				detail = J{"first": first, "last": last}
+			}
+			emit(Case{ID: fmt.Sprintf("pair-%s-%d", eng, idx), Kind: "determinism", In: J{"files": first}, Impl: J{"ok": a.OK()}, Oracle: oracle, Detail: detail, Tags: []string{"order-pair", eng}})
+		}
+	}
 	for i := 0; i < n; i++ {
 		engine := "postgresql"
 		if r.Chance(25) {
 			engine = "mysql"
 		}
 		p := genProject(r, engine)
+		if i%3 == 2 {
+			// the fixed statement corpus as a project: every shape class takes part in the order-independence
+			// checks (a query that writes to shared catalog state shows up as order dependence)
+			p = corpusProject(r)
+			engine = p.Engine
+		}
 		if r.Chance(40) {
 			// overrides that need imports, and tags: more map-ordered code paths
 			p.Overrides = append(p.Overrides, `{"db_type":"text","go_type":"github.com/example/custom.Text"}`, `{"db_type":"pg_catalog.int8","go_type":"github.com/other/big.Int","nullable":true}`)
@@ -180,4 +220,45 @@ func methodTexts(files map[string]string) string {
 	}
 	sortStrings(decls)
 	return strings.Join(decls, "\n\n")
+}
+
+var corpusOK map[string][]int
+
+// corpusProject: 3–8 corpus statements (those sqlc accepts) over the corpus schema
+func corpusProject(r *Rng) Project {
+	if corpusOK == nil {
+		corpusOK = map[string][]int{}
+		for eng, list := range map[string][]corpusStmt{"postgresql": l2CorpusPG, "mysql": l2CorpusMy} {
+			schema := corpusPG
+			if eng == "mysql" {
+				schema = corpusMy
+			}
+			for i, st := range list {
+				q := fmt.Sprintf("-- name: K%d %s\n%s;\n", i, st.cmd, st.sql)
+				if res := generate(map[string]string{"schema.sql": schema, "query.sql": q, "sqlc.json": confV1(eng, "")}); res.OK() {
+					corpusOK[eng] = append(corpusOK[eng], i)
+				}
+			}
+		}
+	}
+	eng := "postgresql"
+	list, schema := l2CorpusPG, corpusPG
+	if r.Chance(20) {
+		eng, list, schema = "mysql", l2CorpusMy, corpusMy
+	}
+	p := Project{Engine: eng, RawSchema: schema, Opts: map[string]bool{}, Rename: map[string]string{}}
+	ok := corpusOK[eng]
+	perm := r.Perm(len(ok))
+	k := 3 + r.Intn(6)
+	if k > len(ok) {
+		k = len(ok)
+	}
+	for _, j := range perm[:k] {
+		st := list[ok[j]]
+		p.Queries = append(p.Queries, PQuery{Name: fmt.Sprintf("K%d", ok[j]), Cmd: st.cmd, SQL: st.sql})
+	}
+	for _, o := range []string{"emit_json_tags", "emit_prepared_queries", "emit_interface"} {
+		p.Opts[o] = r.Chance(30)
+	}
+	return p
 }
